@@ -22,6 +22,7 @@ import (
 const modPath = "github.com/trustbloc/sidetree-go"
 const modPkg = modPath + "/pkg/"
 const jsonPatchPkg = "github.com/evanphx/json-patch"
+const joseJSONPkg = "github.com/go-jose/go-jose/v3/json"
 
 // Obl is one proof obligation (one rule instance) and its verdict.
 type Obl struct {
